@@ -5,7 +5,7 @@
    The 2^31 - 2^17 bound on each submitted stream is part of the theorem: with a 32-bit
    sequence space and unbounded duplication/delay the statement is false without it. *)
 From Elvis Require Import Model.Base Model.U32 Model.Tcb Model.TcpNet
-  Proofs.TcbSafetyDefs Proofs.TcbSafetyEx Proofs.TcbSafetyThms.
+  Proofs.TcbSafetyDefs Proofs.TcbSafetyEx Proofs.TcbSafetyThms Proofs.TcbLiveSys Proofs.TcbLiveThm.
 Local Open Scope Z_scope.
 
 (* safety: in every reachable state of every closed trace (any interleaving of open / write /
@@ -58,3 +58,62 @@ Theorem C01_example :
   length (subB ex_final) = 30%nat /\ delivered ex_final SA = subB ex_final.
 Proof. exact example_explicit. Qed.
 Print Assumptions C01_example.
+
+(* ---- liveness: PARTIAL.  What is proved, for all ISNs, MTUs and contents:
+   [Quiescent c s a b] (Proofs/TcbLiveThm.v) = both endpoints ESTABLISHED with nothing unsent,
+   nothing unacknowledged (SND.UNA = SND.NXT = a at A, = b at B; RCV.NXT of the peer equal to it),
+   empty reassembly heap / receive buffer / ACK queue, timers at rest, nothing in flight.
+   From such a state, any sequence of application writes in either direction, each of at most one
+   MSS (mtu - 50) and each followed by two loss-free rounds [LFair 2] (= one retransmission
+   timeout per side and round), ends in a quiescent state again with every written byte delivered
+   to the peer application exactly once and in order.
+   What is missing for the full property (kept as the Definition [C01_liveness_full_stmt], not
+   claimed): writes larger than one MSS / one window in a single round, convergence from arbitrary
+   reachable states (retransmission queue / heap / window in arbitrary condition), arbitrary fair
+   schedules instead of the canonical round. *)
+Theorem C01_liveness_partial : forall (c : config) (ws : list (side * list Z)) (s : sys) (a b : Z),
+  Quiescent c s a b ->
+  (forall w, In w ws -> 0 < zlen (snd w) <= mtu_of c (fst w) - 50) ->
+  let s' := run c s (write_trace ws) in
+  (exists a' b', Quiescent c s' a' b') /\
+  forall x, sub_of s' x = sub_of s x ++ concat (chunks x ws) /\
+            delivered s' (other x) = delivered s (other x) ++ concat (chunks x ws).
+Proof. exact liveness_partial_explicit. Qed.
+Print Assumptions C01_liveness_partial.
+
+(* a quiescent system has everything acknowledged and both endpoints have stopped transmitting:
+   segments() returns nothing, also after the retransmission timer has expired *)
+Theorem C01_quiescent_silent : forall (c : config) (s : sys) (a b : Z) (x : side) (t : tcb),
+  Quiescent c s a b -> end_of s x = ELive t ->
+  st t = Established /\ retx t = [] /\ out_text t = [] /\ oneshot t = [] /\ snd_una t = snd_nxt t /\
+  net_of s x = [] /\
+  exists t', tcb_segments t = Ok (t', []) /\
+  exists t'', tcb_segments (fst (advance_time t' 101)) = Ok (t'', []).
+Proof. exact quiescent_silent_explicit. Qed.
+Print Assumptions C01_quiescent_silent.
+
+(* in every reachable quiescent state everything submitted has been delivered (safety invariant
+   + sequence numbers), whatever happened before *)
+Theorem C01_quiescent_delivered : forall (c : config) (bl : bool) (ls : list label) (a b : Z),
+  u32 (issA c) -> u32 (issB c) -> 100 <= mtuA c <= 65535 -> 100 <= mtuB c <= 65535 ->
+  closed_trace ls ->
+  let s := run c (init_sys bl) ls in
+  zlen (subA s) < 2 ^ 31 - 2 ^ 17 -> zlen (subB s) < 2 ^ 31 - 2 ^ 17 ->
+  Quiescent c s a b ->
+  delivered s SB = subA s /\ delivered s SA = subB s.
+Proof. exact quiescent_delivered_explicit. Qed.
+Print Assumptions C01_quiescent_delivered.
+
+(* quiescent states are reachable (hs_state = three-way handshake = LOpen; LFair 2 on the example
+   configuration) and the hypotheses of C01_liveness_partial are satisfiable: handshake, then
+   writes of 50 (= one MSS at A), 37, 1 and 1450 (= one MSS at B) bytes in alternating directions *)
+Theorem C01_liveness_example :
+  closed_trace (hs_trace ++ write_trace ex_writes) /\
+  (forall w, In w ex_writes -> 0 < zlen (snd w) <= mtu_of ex_cfg (fst w) - 50) /\
+  Quiescent ex_cfg hs_state (wadd (issA ex_cfg) 1) (wadd (issB ex_cfg) 1) /\
+  let s := run ex_cfg (init_sys true) (hs_trace ++ write_trace ex_writes) in
+  (exists a b, Quiescent ex_cfg s a b) /\
+  delivered s SB = subA s /\ delivered s SA = subB s /\
+  length (subA s) = 51%nat /\ length (subB s) = 1487%nat.
+Proof. exact liveness_example_explicit. Qed.
+Print Assumptions C01_liveness_example.
